@@ -286,11 +286,11 @@ def run(ctx):
     for i in range(n):
         if i % 4 != 3:
             tr = P.gen_truth(rng, noise=rng.choice([0.0, 0.4, 1.0]))
-            one(ctx, tr.rows(), tr.s, tr.j, rng.choice(steps), {"truth": tr.describe()})
+            one(ctx, tr.rows(), tr.s, tr.j, P.fit_step(tr.level, rng.choice(steps)), {"truth": tr.describe()})
         else:
             s, j = gen.pick_thresholds(rng)
             rec = gen.events_record(rng, s, j, n=rng.randint(30, 80), gaps=rng.choice([0, 0, 1]))
-            one(ctx, rec.rows(), s, j, rng.choice(steps), {"record": rec.describe()})
+            one(ctx, rec.rows(), s, j, P.fit_step(rec.level, rng.choice(steps)), {"record": rec.describe()})
 
 
 def replay(ctx, doc):
